@@ -348,3 +348,58 @@ func Digest(v interface{}) string {
 	h := sha256.Sum256(bz)
 	return hex.EncodeToString(h[:])[:16]
 }
+
+// ---------------------------------------------------------------------------------------------
+// Supervision of checks whose property says "never a process-terminating fault": Go ends the
+// process on an unrecoverable fault (out of memory, concurrent map access, stack exhaustion) without
+// running deferred functions, so such a check runs in a child process that notes the input it is
+// about to execute; the parent turns the child's death into a violation naming that input.
+
+var markFile = os.Getenv("VERIF_MARK_FILE")
+
+var (
+	markMu   sync.Mutex
+	markRing []string
+)
+
+// Mark notes the input that is executed next (no-op when not supervised). Several workers
+// execute inputs at the same time, so the last few marks are kept: the faulting input is among
+// them, and the runtime's report (kept by the parent) names the code that faulted.
+func Mark(label string) {
+	if markFile == "" {
+		return
+	}
+	markMu.Lock()
+	markRing = append(markRing, label)
+	if len(markRing) > 20 {
+		markRing = markRing[len(markRing)-20:]
+	}
+	bz := []byte(strings.Join(markRing, "\n---\n"))
+	markMu.Unlock()
+	_ = os.WriteFile(markFile, bz, 0o644)
+}
+
+// ReportFatal is called by the supervising parent when the child died: it writes a replay file
+// and a minimal evidence file, prints the VIOLATION line and returns the exit code.
+func ReportFatal(id, tier, level, lastInput, stderrTail string, out *os.File) int {
+	key := id + "/process-terminating-fault"
+	dir := filepath.Join(Root, "replays", id)
+	_ = os.MkdirAll(dir, 0o755)
+	path := filepath.Join(dir, "fatal.json")
+	what := "the process executing the check's inputs on the real code was terminated by the Go runtime (unrecoverable fault) while executing one of the inputs in flight (latest last): " + lastInput
+	rep := map[string]interface{}{"property": id, "key": key, "what": what, "replay": map[string]interface{}{"last_input": lastInput, "stderr_tail": stderrTail}}
+	bz, _ := json.MarshalIndent(rep, "", " ")
+	_ = os.WriteFile(path, bz, 0o644)
+	seed, _ := strconv.ParseInt(os.Getenv("VERIF_SEED"), 10, 64)
+	ev := map[string]interface{}{
+		"property_id": id, "tier": tier, "seed": seed, "level": level, "wall_s": 0.0, "violations": 1,
+		"coverage": map[string]interface{}{"evaluations": 0, "distinct_nontrivial": 0, "exhaustive": false,
+			"rule":    "the supervised run died before it could report its coverage; the input under execution is in samples",
+			"samples": []interface{}{lastInput}},
+	}
+	bz, _ = json.MarshalIndent(ev, "", " ")
+	_ = os.MkdirAll(filepath.Join(Root, "evidence"), 0o755)
+	_ = os.WriteFile(filepath.Join(Root, "evidence", id+".json"), bz, 0o644)
+	fmt.Fprintf(out, "VIOLATION property=%s replay=%s\n  class: %s\n  what: %s\n", id, path, key, what)
+	return ExitViolation
+}
